@@ -1,10 +1,11 @@
-import common, p_vxbase
+import common, p_vxbase, cli_slices
 
 ASSUME = ["any valid layering is accepted; cases whose only cycles are unreachable from the roots are executed but not judged",
           "root order of the visibility walk: ascending and descending (production iterates a HashSet)"]
 
 def run(prop, tier):
     r = common.run_vx(prop.lower(), tier)
+    cli_slices.merge(r, prop, tier)
     return r, ASSUME
 
 def replay(prop, path):
